@@ -204,6 +204,7 @@ private:
     int get();
     int peek();
     bool at_comment();
+    bool at_scope_after_less();
 
     const CPPManifest *_manifest;
     CPPFile _file;
